@@ -151,6 +151,9 @@ type Rig struct {
 	B     *Backend
 	Log   *LogBuf
 	serve chan error
+	// Leftover holds the stacks of server-side go-smtp goroutines that were
+	// still alive after Shutdown's bounded wait (nil = none).
+	Leftover []string
 }
 
 func NewRig(cfg Config, script Script) *Rig {
@@ -206,17 +209,35 @@ func (r *Rig) Shutdown() bool {
 	case <-time.After(Watchdog):
 		return false
 	}
-	return true
+	// Delivery goroutines of chunked transfers are not joined by Shutdown;
+	// wait until every callback that began has returned.
+	if !r.Hub.WaitUntil(func() bool { return r.B.InflightLocked() == 0 }, Watchdog) {
+		return false
+	}
+	// A delivery goroutine may have been spawned without having run yet (it
+	// shows up in the goroutine dump with its entry frame); let it run and
+	// finish so that the trace is complete before any oracle looks at it.
+	r.Leftover = WaitNoServerGoroutines()
+	return r.Hub.WaitUntil(func() bool { return r.B.InflightLocked() == 0 }, Watchdog)
 }
 
 // Stacks returns the stacks of all goroutines that have a go-smtp frame,
 // excluding frames of the client half when it is being driven by the harness
 // goroutine itself (callers filter further).
+var (
+	stackMu  sync.Mutex
+	stackBuf = make([]byte, 1<<20)
+)
+
 func Stacks() []string {
-	buf := make([]byte, 1<<20)
-	n := runtime.Stack(buf, true)
+	stackMu.Lock()
+	defer stackMu.Unlock()
+	n := runtime.Stack(stackBuf, true)
+	if !bytes.Contains(stackBuf[:n], []byte("github.com/emersion/go-smtp.")) {
+		return nil
+	}
 	var out []string
-	for _, g := range strings.Split(string(buf[:n]), "\n\n") {
+	for _, g := range strings.Split(string(stackBuf[:n]), "\n\n") {
 		if strings.Contains(g, "github.com/emersion/go-smtp.") {
 			out = append(out, g)
 		}
